@@ -19,6 +19,8 @@ import (
 	"reflect"
 	"sort"
 	"strings"
+	"sync"
+	"sync/atomic"
 	"time"
 
 	"cuelabs.dev/go/oci/ociregistry"
@@ -65,6 +67,9 @@ type input struct {
 	Method  string `json:"method,omitempty"`
 	Variant int    `json:"variant,omitempty"`
 	Calls   []call `json:"calls,omitempty"`
+	// Conc != nil: the calls are those of one goroutine among several that were released together
+	// in a fresh process (conc.go); nil: the calls are made one after the other in this process.
+	Conc *concSpec `json:"conc,omitempty"`
 }
 
 func (in *input) normalise() {
@@ -389,13 +394,43 @@ type fieldCall struct {
 	seqLog  *seqLog // the log of the iterator among the results, if any
 }
 
-type world struct {
-	in         input
+// an actor is one caller of the table: the only one (sequential histories), or one goroutine of a
+// concurrent run.  What the table's functions see during a call is recorded with the actor whose
+// call it is, and only that actor's goroutine touches it.
+type actor struct {
 	curCtx     context.Context
 	curLabel   string
 	curResults int
 	fieldCalls []fieldCall
 	ctorCalls  []ctorCall
+}
+
+// world is one table value and its callers.
+type world struct {
+	in input
+	// seq is the only caller of a sequential history; nil in a concurrent run, where the caller is
+	// found through the label its context carries (actors: label -> *actor).
+	seq    *actor
+	actors sync.Map
+	stray  atomic.Int64 // calls of the table's functions that no caller could be found for
+}
+
+// actorFor finds the caller a function of the table was reached from.
+func (w *world) actorFor(c context.Context) *actor {
+	if w.seq != nil {
+		return w.seq
+	}
+	if c != nil {
+		var v any
+		hx.Recover(func() { v = c.Value(ctxKey{}) })
+		if l, ok := v.(string); ok {
+			if a, ok := w.actors.Load(l); ok {
+				return a.(*actor)
+			}
+		}
+	}
+	w.stray.Add(1)
+	return &actor{}
 }
 
 func same(a, b any) (eq bool) {
@@ -405,7 +440,7 @@ func same(a, b any) (eq bool) {
 
 // labelOf names the context a function of the table received: the label of the context of the
 // call in progress when it is that very value.
-func (w *world) labelOf(c context.Context) string {
+func (w *actor) labelOf(c context.Context) string {
 	if same(c, w.curCtx) {
 		return w.curLabel
 	}
@@ -433,18 +468,20 @@ func richDescriptor(tag string) ociregistry.Descriptor {
 func (w *world) fieldFunc(name string, t reflect.Type) reflect.Value {
 	return reflect.MakeFunc(t, func(args []reflect.Value) []reflect.Value {
 		fc := fieldCall{field: name}
-		if c, ok := args[0].Interface().(context.Context); ok {
-			fc.ctx = w.labelOf(c)
+		c, _ := args[0].Interface().(context.Context)
+		a := w.actorFor(c)
+		if c != nil {
+			fc.ctx = a.labelOf(c)
 		} else {
 			fc.ctx = "other:nil"
 		}
 		for _, a := range args[1:] {
 			fc.args = append(fc.args, show(a))
 		}
-		kind := w.curResults
+		kind := a.curResults
 		withValue := kind == 0 || kind == 1
 		withErr := kind == 0 || kind == 2
-		tag := fmt.Sprintf("%s#%d", name, len(w.fieldCalls))
+		tag := fmt.Sprintf("%s#%d", name, len(a.fieldCalls))
 		for i := 0; i < t.NumOut(); i++ {
 			ot := t.Out(i)
 			var r reflect.Value
@@ -501,13 +538,14 @@ func (w *world) fieldFunc(name string, t reflect.Type) reflect.Value {
 			}
 			fc.results = append(fc.results, r)
 		}
-		w.fieldCalls = append(w.fieldCalls, fc)
+		a.fieldCalls = append(a.fieldCalls, fc)
 		return fc.results
 	})
 }
 
 func (w *world) newError(ctx context.Context, methodName, repo string) error {
-	cc := ctorCall{ctx: w.labelOf(ctx), name: methodName, repo: repo}
+	a := w.actorFor(ctx)
+	cc := ctorCall{ctx: a.labelOf(ctx), name: methodName, repo: repo}
 	switch w.in.CtorKind {
 	case 0:
 		cc.ret = &ctorErr{cc.ctx, methodName, repo}
@@ -518,13 +556,13 @@ func (w *world) newError(ctx context.Context, methodName, repo string) error {
 	case 3:
 		cc.ret = context.Canceled
 	}
-	w.ctorCalls = append(w.ctorCalls, cc)
+	a.ctorCalls = append(a.ctorCalls, cc)
 	return cc.ret
 }
 
 // classify names an error a method reported: the very value the constructor returned during
 // this call, or the default unsupported-operation error.  ok = false: neither.
-func (w *world) classify(err error) (coq string, ok bool, why string) {
+func (w *actor) classify(err error) (coq string, ok bool, why string) {
 	for i := len(w.ctorCalls) - 1; i >= 0; i-- {
 		cc := w.ctorCalls[i]
 		if same(cc.ret, err) {
@@ -550,7 +588,7 @@ func zeroItem(item string) bool {
 // after traversal and for each kind of consumer, as the field's own iterator: every yield the
 // field's iterator makes reaches the consumer unchanged, every answer reaches the iterator, and
 // the iterator is run exactly once per traversal (and not before).
-func (w *world) faithful(out []reflect.Value, fc fieldCall, trav string, after func()) string {
+func (w *actor) faithful(out []reflect.Value, fc fieldCall, trav string, after func()) string {
 	if len(out) != len(fc.results) {
 		return "number of results altered"
 	}
@@ -656,20 +694,15 @@ func travCoq(trav string) string {
 	return hx.List(ks)
 }
 
-// runStep makes one call of the history and returns the Coq terms of the step and of what was
-// seen, plus a readable form.
-// uneven is set when a traversal of an unset iterator did not make exactly one yield; it is used,
-// like [odd], only to choose the call a case is filed under.
-func (w *world) runStep(fv reflect.Value, idx int, c call) (stepCoq, obs, obsDesc string, uneven bool) {
-	label := fmt.Sprintf("ctx%d:%s", idx, c.Ctx)
-	ctx, after := makeCtx(c.Ctx, label)
-	w.curCtx, w.curLabel, w.curResults = ctx, label, c.Results
-	w.fieldCalls, w.ctorCalls = nil, nil
-	defer after()
+func ctxLabel(who string, idx int, c call) string {
+	return fmt.Sprintf("%sctx%d:%s", who, idx, c.Ctx)
+}
 
-	m := fv.MethodByName(c.Method)
+// prepStep builds the argument values of one call and the Coq term of the step.
+func prepStep(fv reflect.Value, label string, ctx context.Context, c call) (m reflect.Value, args []reflect.Value, stepCoq string) {
+	m = fv.MethodByName(c.Method)
 	mt := m.Type()
-	args := make([]reflect.Value, mt.NumIn())
+	args = make([]reflect.Value, mt.NumIn())
 	var passed []string
 	intIdx := 0
 	args[0] = reflect.ValueOf(ctx)
@@ -679,6 +712,47 @@ func (w *world) runStep(fv reflect.Value, idx int, c call) (stepCoq, obs, obsDes
 	}
 	stepCoq = fmt.Sprintf("{| s_m := M%s; s_ctx := %s; s_args := %s; s_results := %d; s_trav := %s |}",
 		c.Method, hx.B(label), hx.Bs(passed), c.Results, travCoq(c.Trav))
+	return
+}
+
+// runStep makes one call of the history and returns the Coq terms of the step and of what was
+// seen, plus a readable form.
+// uneven is set when a traversal of an unset iterator did not make exactly one yield; it is used,
+// like [odd], only to choose the call a case is filed under.
+// label is the name of the call's context (the value it carries); who is the prefix naming the
+// caller ("" for the only caller of a sequential history).
+func (w *actor) runStep(fv reflect.Value, who string, idx int, c call) (stepCoq, obs, obsDesc string, uneven bool) {
+	return w.execStep(prepare(fv, who, idx, c), nil)
+}
+
+// a call ready to be made: its context, its argument values, the Coq term of the step
+type prepared struct {
+	c       call
+	label   string
+	ctx     context.Context
+	after   func()
+	m       reflect.Value
+	args    []reflect.Value
+	stepCoq string
+}
+
+func prepare(fv reflect.Value, who string, idx int, c call) *prepared {
+	p := &prepared{c: c, label: ctxLabel(who, idx, c)}
+	p.ctx, p.after = makeCtx(c.Ctx, p.label)
+	p.m, p.args, p.stepCoq = prepStep(fv, p.label, p.ctx, c)
+	return p
+}
+
+// execStep makes a prepared call (after gate(), when given: the barrier of a concurrent run) and
+// works out what was seen.
+func (w *actor) execStep(p *prepared, gate func()) (stepCoq, obs, obsDesc string, uneven bool) {
+	c, ctx, label, after, m, args, stepCoq := p.c, p.ctx, p.label, p.after, p.m, p.args, p.stepCoq
+	w.curCtx, w.curLabel, w.curResults = ctx, label, c.Results
+	w.fieldCalls, w.ctorCalls = nil, nil
+	defer after()
+	if gate != nil {
+		gate()
+	}
 
 	other := func(what string) { obs = "SOther " + hx.B(what); obsDesc = what }
 	var out []reflect.Value
@@ -803,27 +877,52 @@ func kindOf(obsDesc string) string {
 // first one whose observation is of a shape this table cannot explain (a panic, results altered,
 // an iterator not yielding the error once, a delegation without the field, an error with it),
 // else the last one.  This only names the group a failure is reported in; the judgement is Coq's.
-func runCase(in input) (coq string, observed []string, subject int) {
-	w := &world{in: in}
-	var fv reflect.Value
+// makeTable builds the table value the input describes.
+func makeTable(w *world) reflect.Value {
+	in := w.in
 	if in.Nil {
-		fv = reflect.ValueOf((*ociregistry.Funcs)(nil))
-	} else {
-		f := &ociregistry.Funcs{}
-		rv := reflect.ValueOf(f).Elem()
-		for _, name := range in.Set {
-			fld := rv.FieldByName(name + "_")
-			fld.Set(w.fieldFunc(name, fld.Type()))
-		}
-		if in.Ctor {
-			f.NewError = w.newError
-		}
-		fv = reflect.ValueOf(f)
+		return reflect.ValueOf((*ociregistry.Funcs)(nil))
 	}
-	var steps, obs []string
+	f := &ociregistry.Funcs{}
+	rv := reflect.ValueOf(f).Elem()
+	for _, name := range in.Set {
+		fld := rv.FieldByName(name + "_")
+		fld.Set(w.fieldFunc(name, fld.Type()))
+	}
+	if in.Ctor {
+		f.NewError = w.newError
+	}
+	return reflect.ValueOf(f)
+}
+
+func runCase(in input) (coq string, observed []string, subject int) {
+	a := &actor{}
+	w := &world{in: in, seq: a}
+	steps, obs, observed, subject := a.runHistory(makeTable(w), "", in)
+	return caseCoq(in, steps, obs), observed, subject
+}
+
+// runHistory makes the calls of in.Calls one after the other as the caller a.
+func (a *actor) runHistory(fv reflect.Value, who string, in input) (steps, obs, observed []string, subject int) {
+	return a.runPrepared(fv, who, in, nil, nil)
+}
+
+// runPrepared is runHistory with the calls prepared beforehand (ps; nil = each just before it is
+// made) and a gate passed through immediately before every call (nil = none).
+func (a *actor) runPrepared(fv reflect.Value, who string, in input, ps []*prepared, gate func(i int)) (steps, obs, observed []string, subject int) {
 	var strange []bool
 	for i, c := range in.Calls {
-		s, o, od, uneven := w.runStep(fv, i, c)
+		var p *prepared
+		if ps != nil {
+			p = ps[i]
+		} else {
+			p = prepare(fv, who, i, c)
+		}
+		var g func()
+		if gate != nil {
+			g = func() { gate(i) }
+		}
+		s, o, od, uneven := a.execStep(p, g)
 		isSet := false
 		for _, f := range in.Set {
 			isSet = isSet || f == c.Method
@@ -836,13 +935,16 @@ func runCase(in input) (coq string, observed []string, subject int) {
 			subject = i
 		}
 	}
+	return
+}
+
+func caseCoq(in input, steps, obs []string) string {
 	set := make([]string, len(in.Set))
 	for i, s := range in.Set {
 		set[i] = "M" + s
 	}
-	coq = fmt.Sprintf("{| c_nil := %s; c_ctor := %s; c_ctor_kind := %d; c_set := %s; c_steps := %s; c_obs := %s |}",
+	return fmt.Sprintf("{| c_nil := %s; c_ctor := %s; c_ctor_kind := %d; c_set := %s; c_steps := %s; c_obs := %s |}",
 		hx.Bool(in.Nil), hx.Bool(in.Ctor), in.CtorKind, hx.List(set), hx.List(steps), hx.List(obs))
-	return
 }
 
 func odd(obs string) bool {
@@ -884,20 +986,24 @@ func tablesFor(m string) []input {
 }
 
 func main() {
+	if concMain() {
+		return
+	}
 	cfg := hx.ParseFlags()
 	out := hx.NewOut(cfg, "Obs.C20")
-	add := func(in input, origin string) {
-		in.Set = append([]string{}, in.Set...)
-		in.Calls = append([]call{}, in.Calls...)
-		in.normalise()
-		if len(in.Calls) == 0 {
-			return
-		}
-		coq, od, subj := runCase(in)
+	out.Extra["race_detector"] = raceEnabled
+	if !cfg.Thorough() {
+		out.ShardMax = 900 // one wave of at most 16 coqc processes in the quick tier
+	}
+	record := func(in input, coq string, od []string, subj int, origin string, desc map[string]any, class string) {
 		last := in.Calls[subj]
 		kind := kindOf(od[subj])
-		if out.Add(hx.Case{Coq: coq, Desc: map[string]any{"input": in, "observed": od, "origin": origin},
-			Tags: map[string]any{"class": last.Method + "/" + kind, "method": last.Method, "observed_kind": kind}}) {
+		if class == "" {
+			class = last.Method + "/" + kind
+		}
+		desc["input"], desc["observed"], desc["origin"] = in, od, origin
+		if out.Add(hx.Case{Coq: coq, Desc: desc,
+			Tags: map[string]any{"class": class, "method": last.Method, "observed_kind": kind}}) {
 			out.Count("method:" + last.Method)
 			out.Count(fmt.Sprintf("setsize:%d", len(in.Set)))
 			out.Count("origin:" + origin)
@@ -917,7 +1023,49 @@ func main() {
 			if in.Ctor && !in.Nil {
 				out.Count(fmt.Sprintf("ctor_kind:%d", in.CtorKind))
 			}
+			if in.Conc != nil {
+				out.Count(fmt.Sprintf("concurrent_goroutines:%d", in.Conc.Goroutines))
+				out.Count(fmt.Sprintf("concurrent_tables:%d", len(in.Conc.Tables)))
+				out.Count("concurrent_order:" + in.Conc.Order)
+			}
 		}
+	}
+	// a goroutine's case of a concurrent run
+	emitConc := func(r *concRun, g int, origin string) {
+		in, coq, od, subj := r.caseOf(g)
+		desc := map[string]any{"process": map[string]any{"died": r.died, "how": r.why, "race_detector": r.out.Race || (r.died && raceEnabled),
+			"stray_calls": r.out.Stray}}
+		class := ""
+		if r.died {
+			class = "concurrent/process-died"
+		}
+		record(in, coq, od, subj, origin, desc, class)
+	}
+	// (The sequential histories are run by this one goroutine on purpose, although the
+	// race-detector build makes them several times slower: overlapping calls belong in the child
+	// processes of conc.go, where a process that dies is an observation and not the end of the run.)
+	add := func(in input, origin string) {
+		if in.Conc != nil {
+			// a goroutine of a concurrent run (replay, corpus): the whole run is made again
+			spec := *in.Conc
+			if !spec.valid() {
+				return
+			}
+			tries := 3
+			if origin == "replay" {
+				tries = 20
+			}
+			emitConc(replayConc(spec, cfg.Out, tries), spec.Index, origin)
+			return
+		}
+		in.Set = append([]string{}, in.Set...)
+		in.Calls = append([]call{}, in.Calls...)
+		in.normalise()
+		if len(in.Calls) == 0 {
+			return
+		}
+		coq, od, subj := runCase(in)
+		record(in, coq, od, subj, origin, map[string]any{}, "")
 	}
 	if cfg.Replay != "" {
 		b, err := os.ReadFile(cfg.Replay)
@@ -1111,6 +1259,8 @@ func main() {
 		}
 		add(in, "random")
 	}
+	// 9. the tables called from several goroutines at once, in fresh processes (conc.go)
+	concPhase(cfg, out, emitConc)
 	if err := out.Flush(); err != nil {
 		panic(err)
 	}
